@@ -84,7 +84,14 @@ def mul(a, b):
             res = add(res, scale(('mul', x, y), k * l))
     return res
 
+def as_cond(c):
+    """a boolean that was materialised as the integer ite(c', 1, 0) (e.g. the value of `matches!`) is the condition c'"""
+    while c[0] == 'ite' and c[2][0] == 'c' and c[3][0] == 'c' and {c[2][1], c[3][1]} == {0, 1}:
+        c = c[1] if c[2][1] == 1 else bnot(c[1])
+    return c
+
 def ite(c, a, b):
+    c = as_cond(c)
     if c[0] == 'c': return a if c[1] else b
     if a == b: return a
     if c[0] == 'bnot': return ('ite', c[1], b, a)
@@ -110,6 +117,17 @@ def refine(c, ranges):
         x = c[1]
         if x[0] == 'le': return refine(('lt', x[2], x[1]), ranges)
         if x[0] == 'lt': return refine(('le', x[2], x[1]), ranges)
+        if x[0] == 'eq':
+            # t != v trims an end point of t's interval when v sits on it
+            dd, c0 = to_lin(sub(x[1], x[2]))
+            if len(dd) == 1:
+                (leaf, k), = dd.items()
+                if abs(k) == 1:
+                    v = -c0 * k           # k*leaf + c0 == 0  <=>  leaf == -c0/k
+                    b = _rng(leaf); o = ranges.get(leaf)
+                    lo, hi = (max(b[0], o[0]), min(b[1], o[1])) if o else b
+                    if lo == v: ranges[leaf] = (lo + 1, hi)
+                    elif hi == v: ranges[leaf] = (lo, hi - 1)
         return
     if c[0] == 'band':
         refine(c[1], ranges); refine(c[2], ranges); return
@@ -342,6 +360,7 @@ def wrap(a, m):
 # ---------------------------------------------------------------- booleans
 
 def bnot(c):
+    if c[0] == 'ite' and c[2][0] == 'c' and c[3][0] == 'c' and {c[2][1], c[3][1]} == {0, 1}: c = as_cond(c)
     if c[0] == 'c': return C(0 if c[1] else 1)
     if c[0] == 'bnot': return c[1]
     return ('bnot', c)
@@ -479,7 +498,8 @@ def equal(a, b, facts=(), max_split=10):
             global CTX
             saved = CTX
             ranges = {}
-            for c, v in zip(conds, asg): refine(c if v else bnot(c), ranges)
+            for _r0 in range(3):
+                for c, v in zip(conds, asg): refine(c if v else bnot(c), ranges)
             for _round in range(3):
                 CTX = ranges
                 for fct in facts:
